@@ -10,10 +10,12 @@
 //!
 //! One JSON job per line on stdin, one JSON result per line:
 //!   {"id":.., "sources": {"Mod": text, ..}, "entry": "Mod",
-//!    "stages": ["dedup", "mir-raw", "mir-pipeline", "lir"] (default: all)}
+//!    "stages": ["spec", "dedup", "mir-raw", "mir-pipeline", "lir"] (default: all)}
 //!   -> {"id", "fnames": [text..], "stages": [ST..]} | {"id", "rejected": true} | {"id", "lowering_panic": msg}
 //!   ST = {"kind": "mir-elim", "where": "raw" | "round<k>", "before": G, "after_names": NM, "sub_vector": bool}
 //!      | {"kind": "lir-elim", "where": "final", "hook": true,  "before": G, "after_names": NM, "sub_vector": bool}
+//!      | {"kind": "spec", "builtin_fns": [f..], "fname_text": {f: encoded name}, "before": G (only when "dedup" is not requested:
+//!         otherwise it is the "before" of the "dedup" stage)}   the program right after generics specialisation
 //!      | {"kind": "dedup", "before": G, "after": G, "derive": [[parent, tag, sub]..], "parents_after": [[sub, parent]..]}
 //!      | {"kind": .., "panic": msg, ..}
 //!   NM = {"globals": [n..], "closures": [n..], "typedefs": [n..], "funcs": [n..], "mains": [n..]}
@@ -287,6 +289,30 @@ fn mir_parts(tb: &mut Tb, s: &mir::Sources) -> MParts {
   MParts { globals, closures, typedefs, mains, main_ids, funcs }
 }
 
+const BUILTIN_FNS: [mir::FunctionName; 21] = [
+  mir::FunctionName::PROCESS_PRINTLN,
+  mir::FunctionName::PROCESS_PANIC,
+  mir::FunctionName::STR_FROM_INT,
+  mir::FunctionName::STR_TO_INT,
+  mir::FunctionName::STR_CONCAT,
+  mir::FunctionName::STR_EQ,
+  mir::FunctionName::VEC_EMPTY,
+  mir::FunctionName::VEC_OF,
+  mir::FunctionName::VEC_WITH_CAPACITY,
+  mir::FunctionName::VEC_LENGTH,
+  mir::FunctionName::VEC_CAPACITY,
+  mir::FunctionName::VEC_RESERVE,
+  mir::FunctionName::VEC_PUSH,
+  mir::FunctionName::VEC_POP,
+  mir::FunctionName::VEC_GET,
+  mir::FunctionName::VEC_SET,
+  mir::FunctionName::VEC_EQ,
+  mir::FunctionName::UNWRAP_I31,
+  mir::FunctionName::BUILTIN_FREE,
+  mir::FunctionName::BUILTIN_INC_REF,
+  mir::FunctionName::BUILTIN_DEC_REF,
+];
+
 fn sub_tag(heap: &Heap, table: &mir::SymbolTable, id: mir::TypeNameId) -> Option<(String, u32)> {
   let n = tnum(id);
   if n == 1 || n == 3 {
@@ -538,18 +564,42 @@ fn wants(job: &Value, stage: &str) -> bool {
   }
 }
 
-fn dedup_stage(tb: &mut Tb, heap: &mut Heap, checked: &Checked) -> Value {
+fn dedup_stage(tb: &mut Tb, heap: &mut Heap, checked: &Checked, want_spec: bool, want_dedup: bool, out: &mut Vec<Value>) {
   use samlang_compiler::verif as chooks;
   let before_src = match catch_unwind(AssertUnwindSafe(|| chooks::compile_sources_to_mir_before_dedup(heap, checked))) {
     Ok(s) => s,
-    Err(p) => return json!({"kind": "dedup", "lowering_panic": panic_msg(p)}),
+    Err(p) => {
+      out.push(json!({"kind": if want_dedup { "dedup" } else { "spec" }, "lowering_panic": panic_msg(p)}));
+      return;
+    }
   };
   let before = mir_parts(tb, &before_src);
   let subs = subs_table(tb, heap, &before_src.symbol_table);
   let g = mir_gallina(&before, &subs);
+  if want_spec {
+    // the function names the runtime library defines (the FunctionName constants of mir.rs)
+    let builtin_fns: Vec<u64> = BUILTIN_FNS.iter().filter_map(|f| tb.fnames.get(f).copied()).collect();
+    let mut fname_text = serde_json::Map::new();
+    for f in &tb.fname_list {
+      let text = catch_unwind(AssertUnwindSafe(|| f.encoded_for_test(heap, &before_src.symbol_table)))
+        .unwrap_or_else(|_| format!("{}${}", tnum(f.type_name), f.fn_name.as_str(heap)));
+      fname_text.insert(tb.fnames[f].to_string(), json!(text));
+    }
+    let mut spec = json!({"kind": "spec", "builtin_fns": builtin_fns, "fname_text": fname_text, "functions": before.funcs.len()});
+    if !want_dedup {
+      spec["before"] = json!(g);
+    }
+    out.push(spec);
+  }
+  if !want_dedup {
+    return;
+  }
   let after_src = match catch_unwind(AssertUnwindSafe(|| chooks::type_deduplication(before_src))) {
     Ok(s) => s,
-    Err(p) => return json!({"kind": "dedup", "before": g, "panic": panic_msg(p)}),
+    Err(p) => {
+      out.push(json!({"kind": "dedup", "before": g, "panic": panic_msg(p)}));
+      return;
+    }
   };
   let after = mir_parts(tb, &after_src);
   let subs_after = subs_table(tb, heap, &after_src.symbol_table);
@@ -575,8 +625,8 @@ fn dedup_stage(tb: &mut Tb, heap: &mut Heap, checked: &Checked) -> Value {
   // that only exist after it; their parent is already the canonical one
   let after_g = mir_gallina(&after, &subs_after);
   let parents_after: Vec<Value> = subs_after.iter().map(|(s, p, _)| json!([s, p])).collect();
-  json!({"kind": "dedup", "before": g, "after": after_g, "derive": derive, "parents_after": parents_after,
-         "sizes": [before.typedefs.len(), after.typedefs.len(), before.closures.len(), after.closures.len(), before.funcs.len()]})
+  out.push(json!({"kind": "dedup", "before": g, "after": after_g, "derive": derive, "parents_after": parents_after,
+         "sizes": [before.typedefs.len(), after.typedefs.len(), before.closures.len(), after.closures.len(), before.funcs.len()]}));
 }
 
 fn lir_stage(tb: &mut Tb, heap: &mut Heap, optimized: mir::Sources) -> Value {
@@ -696,8 +746,8 @@ fn run_job(job: &Value) -> Value {
   };
   let mut tb = Tb::default();
   let mut stages: Vec<Value> = Vec::new();
-  if wants(job, "dedup") {
-    stages.push(dedup_stage(&mut tb, &mut heap, &checked));
+  if wants(job, "dedup") || wants(job, "spec") {
+    dedup_stage(&mut tb, &mut heap, &checked, wants(job, "spec"), wants(job, "dedup"), &mut stages);
   }
   if wants(job, "mir-raw") {
     match catch_unwind(AssertUnwindSafe(|| samlang_compiler::compile_sources_to_mir(&mut heap, &checked))) {
